@@ -39,6 +39,7 @@ import GeoProofs.Lemmas.RELM2Disjoint
 import GeoProofs.Lemmas.RELM2Ring
 import GeoProofs.Lemmas.RELM3Areal
 import GeoProofs.Lemmas.RELM3Full
+import GeoProofs.Lemmas.RELM3ArealFull
 import Mathlib.Tactic.NormNum
 
 namespace Geo.Proofs.C01
@@ -1895,6 +1896,101 @@ example : relateImpl (.lineString [⟨0, 0⟩, ⟨4, 0⟩, ⟨4, 3⟩]) (.point 
 example : relateImpl (.point ⟨9, 9⟩) (.multiLineString [[⟨0, 0⟩, ⟨1, 0⟩], [⟨1, 0⟩, ⟨1, 1⟩], [⟨1, 0⟩, ⟨2, 0⟩]]) =
     relateSpec (.point ⟨9, 9⟩) (.multiLineString [[⟨0, 0⟩, ⟨1, 0⟩], [⟨1, 0⟩, ⟨1, 1⟩], [⟨1, 0⟩, ⟨2, 0⟩]]) :=
   (relateImpl_point_lineType_eq_spec_total_partial _ _ (by decide +kernel) rfl).1
+
+/-! ### the Exterior row for areal `B` -/
+
+/-- [T] **the Exterior row of `relate(Point p, B)` in the model of the implementation, for a `B` all of whose edges are
+ring edges** (`area(OnBoundary, l, r)`, `{l, r} = {Inside, Outside}`; any arithmetic, `B` valid or not): `EI = 2`,
+`EB = 1` as soon as `B` has an edge — every ring edge is isolated from the point and contributes (1, E, B), (2, E, I),
+(2, E, E); the bundles of the stars get full area labels whose sides are `Inside` / `Outside` (`compute_label_side`
+returns nothing else), so no two-dimensional contribution lands on the boundary of `B`. -/
+theorem relateImpl_point_exterior_row_ringEdges (ar : Arith) (p : Pt) (b : Geom)
+    (hE : ∀ e ∈ (freshGraph ar 1 b).edges, AreaLbl e.label) (hne : (freshGraph ar 1 b).edges ≠ [])
+    {m : IM} (h : relateGraph ar (.point p) b = some m) :
+    m.get .outside .inside = .two ∧ m.get .outside .onBoundary = .one :=
+  point_ext_row_areal ar p b hE hne h
+
+/-- a polygon with a hole (an areal operand: `fresh_edges_area`) -/
+example : ∀ m, relateGraph Arith.exact (.point ⟨2, 0⟩)
+      (.polygon ⟨[⟨0, 0⟩, ⟨4, 0⟩, ⟨4, 4⟩, ⟨0, 4⟩, ⟨0, 0⟩], [[⟨2, 0⟩, ⟨3, 2⟩, ⟨1, 2⟩, ⟨2, 0⟩]]⟩) = some m →
+    m.get .outside .inside = .two ∧ m.get .outside .onBoundary = .one :=
+  fun m h => relateImpl_point_exterior_row_ringEdges _ _ _ (fresh_edges_area _ _ rfl) (by decide +kernel) h
+
+/-- [T] **the Exterior row of the specification for `Point × B` from `DimsSpec B`**: against a point operand a row
+maximum of dimension ≥ 1 is attained in the column Exterior (the columns Interior / Boundary of a point hold
+dimension 0 at most), so `EI = dim B` and `EB = dim ∂B` whenever these are ≥ 1. -/
+theorem relateSpec_point_exterior_row_of_dimsSpec (p : Pt) (b : Geom) (db : Spec.DimsSpec b) :
+    (Dim.zero.rank < (dims b).rank → (relateSpec (.point p) b).get .outside .inside = dims b) ∧
+    (Dim.zero.rank < (boundaryDims b).rank → (relateSpec (.point p) b).get .outside .onBoundary = boundaryDims b) :=
+  spec_ext_row_of_dimsSpec p b db
+
+example : (relateSpec (.point ⟨1, 1⟩) (.rect ⟨0, 0⟩ ⟨4, 2⟩)).get .outside .onBoundary = .one :=
+  (relateSpec_point_exterior_row_of_dimsSpec _ _ (dimsSpec_rect _ _ (by norm_num) (by norm_num))).2 (by decide +kernel)
+
+/-- [T] **`relate(Point p, B) = relateSpec (Point p) B`, the whole matrix, on the graph path, for every areal `B` of the
+domain** (Polygon with holes, MultiPolygon, Rect, Triangle, collections of pairwise disjoint areal members) **of
+dimension 2 whose `HasDimensions` answers are the specification's row maxima**. Full statement (no `DimsSpec`): needs
+an interior face sample of a valid polygon (S2 type; `dimsSpec_polygon_partial`); Rect and Triangle have it, below. -/
+theorem relateImpl_point_areal_graph_eq_spec_partial (p : Pt) (b : Geom) (hd : inDomain b = true) (ha : arOk b = true)
+    (db : Spec.DimsSpec b) (h2 : dims b = .two) (h1 : boundaryDims b = .one)
+    (hne : (freshGraph Arith.exact 1 b).edges ≠ []) {m : IM}
+    (h : relateGraph Arith.exact (.point p) b = some m) : m = relateSpec (.point p) b :=
+  point_areal_full p b hd ha db h2 h1 hne h
+
+/-- a polygon with a hole touching the shell, against the touch point: the whole matrix, given the interior face sample -/
+example (hi : Spec.HasInteriorSample (parts (.polygon ⟨[⟨0, 0⟩, ⟨4, 0⟩, ⟨4, 4⟩, ⟨0, 4⟩, ⟨0, 0⟩], [[⟨2, 0⟩, ⟨3, 2⟩, ⟨1, 2⟩, ⟨2, 0⟩]]⟩))) :
+    ∀ m, relateGraph Arith.exact (.point ⟨2, 0⟩)
+      (.polygon ⟨[⟨0, 0⟩, ⟨4, 0⟩, ⟨4, 4⟩, ⟨0, 4⟩, ⟨0, 0⟩], [[⟨2, 0⟩, ⟨3, 2⟩, ⟨1, 2⟩, ⟨2, 0⟩]]⟩) = some m →
+    m = relateSpec (.point ⟨2, 0⟩) (.polygon ⟨[⟨0, 0⟩, ⟨4, 0⟩, ⟨4, 4⟩, ⟨0, 4⟩, ⟨0, 0⟩], [[⟨2, 0⟩, ⟨3, 2⟩, ⟨1, 2⟩, ⟨2, 0⟩]]⟩) :=
+  fun m h => relateImpl_point_areal_graph_eq_spec_partial _ _ (by decide +kernel) rfl
+    (dimsSpec_polygon_partial _ (by decide +kernel) hi) (by decide +kernel) (by decide +kernel) (by decide +kernel) h
+
+/-- Line, LineString, MultiLineString, Rect, Triangle -/
+def fullMatrixType (b : Geom) : Bool := lineType b || boxType b
+
+/-- [T] **`relateImpl (Point p) B = relateSpec (Point p) B` and `relateImpl B (Point p) = relateSpec B (Point p)` —
+whole matrix, both paths, total function, no further hypothesis — for `B` a Line, LineString, MultiLineString, Rect or
+Triangle of the validity domain.** Full statement (every `B` of the domain): Polygon / MultiPolygon need `DimsSpec`
+(an interior face sample), collections need `DimsSpec` on the shortcut path and "an envelope implies an edge". -/
+theorem relateImpl_point_eq_spec_total_partial (p : Pt) (b : Geom) (hd : inDomain b = true)
+    (ht : fullMatrixType b = true) :
+    relateImpl (.point p) b = relateSpec (.point p) b ∧ relateImpl b (.point p) = relateSpec b (.point p) := by
+  simp only [fullMatrixType, Bool.or_eq_true] at ht
+  rcases ht with ht | ht
+  · exact relateImpl_point_lineType_eq_spec_total_partial p b hd ht
+  · have hz : noZeroLine b = true := by cases b <;> first | rfl | cases ht
+    have hc : ringsClosed b = true := by cases b <;> first | rfl | cases ht
+    have hnp : noPolygonType b = true := by cases b <;> first | rfl | cases ht
+    have hs := relateImpl_never_panics (.point p) b rfl hz rfl hc
+    have h1 : relateImpl (.point p) b = relateSpec (.point p) b := by
+      obtain ⟨m, hm⟩ := Option.isSome_iff_exists.1 hs
+      unfold relateImpl
+      rw [hm]
+      show m = relateSpec (.point p) b
+      cases henv : envelopesMeet (.point p) b with
+      | true =>
+        have hg : relateGraph Arith.exact (.point p) b = some m := by
+          unfold relateImpl? relateImplWith at hm
+          rw [henv, if_pos rfl] at hm
+          exact hm
+        exact point_boxType_graph p b hd ht hg
+      | false =>
+        have := relateImpl_disjoint_eq_spec_noPolygon_partial Arith.exact (a := .point p) (b := b) rfl hd rfl hnp henv
+        unfold relateImpl? at hm
+        rw [this] at hm
+        exact (Option.some.inj hm).symm
+    refine ⟨h1, ?_⟩
+    rw [relateImpl_transpose_closed (.point p) b rfl hz rfl hc, h1, relateSpec_transpose (.point p) b]
+
+/-- a point at a vertex of, on an edge of, inside and outside a triangle; a rectangle against its corner -/
+example : relateImpl (.point ⟨4, 0⟩) (.triangle ⟨0, 0⟩ ⟨4, 0⟩ ⟨0, 4⟩) = relateSpec (.point ⟨4, 0⟩) (.triangle ⟨0, 0⟩ ⟨4, 0⟩ ⟨0, 4⟩) :=
+  (relateImpl_point_eq_spec_total_partial _ _ (by decide +kernel) rfl).1
+example : relateImpl (.point ⟨2, 2⟩) (.triangle ⟨0, 0⟩ ⟨4, 0⟩ ⟨0, 4⟩) = relateSpec (.point ⟨2, 2⟩) (.triangle ⟨0, 0⟩ ⟨4, 0⟩ ⟨0, 4⟩) :=
+  (relateImpl_point_eq_spec_total_partial _ _ (by decide +kernel) rfl).1
+example : relateImpl (.point ⟨1, 1⟩) (.triangle ⟨0, 0⟩ ⟨4, 0⟩ ⟨0, 4⟩) = relateSpec (.point ⟨1, 1⟩) (.triangle ⟨0, 0⟩ ⟨4, 0⟩ ⟨0, 4⟩) :=
+  (relateImpl_point_eq_spec_total_partial _ _ (by decide +kernel) rfl).1
+example : relateImpl (.rect ⟨0, 0⟩ ⟨4, 2⟩) (.point ⟨4, 2⟩) = relateSpec (.rect ⟨0, 0⟩ ⟨4, 2⟩) (.point ⟨4, 2⟩) :=
+  (relateImpl_point_eq_spec_total_partial _ _ (by decide +kernel) rfl).2
 
 end Impl3
 
